@@ -161,6 +161,31 @@ def model_line(d, queries):
   return " ".join(map(str, t))
 
 
+class ModelProc:
+  """One long-lived process of the extracted solver model (the driver answers line by line and flushes): starting
+  the executable costs seconds on a loaded machine (it builds its unary-number tables), a round trip does not."""
+
+  def __init__(self, exe):
+    import subprocess
+    self.p = subprocess.Popen([exe], stdin=subprocess.PIPE, stdout=subprocess.PIPE, text=True, bufsize=1)
+
+  def ask(self, line):
+    self.p.stdin.write(line + "\n")
+    self.p.stdin.flush()
+    out = self.p.stdout.readline()
+    if not out:
+      raise RuntimeError("solver model process died on: " + line[:300])
+    out = out.strip()
+    return out.split(" ") if out else []
+
+  def close(self):
+    try:
+      self.p.stdin.close()
+      self.p.wait(timeout=5)
+    except Exception:  # pylint: disable=broad-except
+      self.p.kill()
+
+
 # ------------------------------------------------------------------------------------------
 # graph facts used for the input-distribution record
 
